@@ -9,7 +9,7 @@ PROP = 'C08'
 MODULE = 'WaveletsVerif.Properties.C08'
 THEOREMS = ['WV.C08.mag_nonneg', 'WV.C08.mag3_nonneg', 'WV.C08.scatJ1_channels', 'WV.C08.scatJ1_raises_odd', 'WV.C08.scatJ2_raises_unless_mult8',
             'WV.C08P.ScatLayer_eq_spec',
-            'WV.C08Q.refLevel1_bands', 'WV.C08Q.scatJ2_eq_spec', 'WV.C08Q.pad8Img_rect', 'WV.C08Q.ScatLayerj2_eq_spec', 'WV.C01Z.pad8_gen', 'WV.C04Z.scat_sizes_gen', 'WV.C04Z.scatJ1_channels_gen', 'WV.C08R.scatJ2_colour_eq_spec', 'WV.C08R.ScatLayerj2_colour_eq_spec']
+            'WV.C08Q.refLevel1_bands', 'WV.C08Q.scatJ2_eq_spec', 'WV.C08Q.pad8Img_rect', 'WV.C08Q.ScatLayerj2_eq_spec', 'WV.C01Z.pad8_gen', 'WV.C04Z.scat_sizes_gen', 'WV.C04Z.scatJ1_channels_gen', 'WV.C08R.scatJ2_colour_eq_spec', 'WV.C08R.ScatLayerj2_colour_eq_spec', 'WV.C08B.fwdJ1Rot_eq_ref', 'WV.C08B.fwdJ2Rot_eq_ref', 'WV.C08B.ScatLayer_rot_eq_spec', 'WV.C08B.refLevel1Rot_bands', 'WV.C08B.scatJ2_rot_eq_spec', 'WV.C08B.ScatLayerj2_rot_eq_spec']
 KF = 'C08-scatj2-size-2'
 FAMS = [('near_sym_a', 'qshift_a'), ('near_sym_b', 'qshift_b'), ('near_sym_b_bp', 'qshift_b_bp'), ('antonini', 'qshift_c'), ('legall', 'qshift_06')]
 
@@ -181,6 +181,48 @@ def oracle(ck, extended):
         rt.guard(ck, oracle_layer, ck, order, biort, qshift, b, colour, x)
 
 
+def spec_check_rot(ck):
+    """Lean reference levels with band-pass diagonal filters (Spec.refLevel1Rot / refLevel2Rot, what C08B refines to) <->
+    dtcwt.numpy.Transform2d with six-filter biort / twelve-filter qshift sets: exact over Q(sqrt 2) on integer filters, and at
+    1e-9 on the shipped band-pass tables"""
+    rng = ck.rng
+    lines, exp = [], []
+    for it in range(16 if ck.tier == 'quick' else 120):
+        if it % 4 == 0:
+            from pytorch_wavelets.dtcwt.coeffs import level1, qshift as _q
+            import dtcwt.coeffs as DC
+            bt = DC.biort('near_sym_b_bp'); qt = DC.qshift('qshift_b_bp'); kind = 'F'
+            x = gen.float_tensor(ck.nprng, (4 * rng.randint(1, 5), 4 * rng.randint(1, 5)))
+        else:
+            b4 = OD.int_biort(rng, gen); q8 = OD.int_qshift(rng, gen)
+            L2 = rng.choice([3, 5, 7, 9]); h2o = gen.int_filter(rng, L2); g2o = gen.int_filter(rng, L2)
+            m2 = 2 * rng.randint(1, 6)
+            def pair(sign, L):
+                while True:
+                    a_ = gen.int_filter(rng, L); b_ = gen.int_filter(rng, L)
+                    if np.sign(np.sum(a_ * b_)) == sign:
+                        return a_, b_
+            h2a, h2b = pair(-1, m2); g2a, g2b = pair(-1, m2)
+            bt = tuple(b4) + (h2o, g2o); qt = tuple(q8) + (h2a, h2b, g2a, g2b); kind = 'Q'
+            x = gen.int_tensor(rng, (4 * rng.randint(1, 4), 4 * rng.randint(1, 4)), amp=3)
+        h0o, g0o, h1o, g1o, h2o, g2o = [np.ravel(v) for v in bt]
+        h0a, h0b, g0a, g0b, h1a, h1b, g1a, g1b, h2a, h2b, g2a, g2b = [np.ravel(v) for v in qt]
+        import dtcwt
+        OD._linear_colifilt()
+        p = dtcwt.Transform2d(biort=bt, qshift=qt).forward(np.asarray(x, dtype=np.float64), nlevels=2, include_scale=True)
+        lines.append(proto.to_line(kind, 'spec_levels_rot', [], [h0o, h1o, h2o, h0a, h0b, h1a, h1b, h2a, h2b, x]))
+        exp.append([p.scales[0], OD.to_canon(np.moveaxis(p.highpasses[0], -1, 0)), p.scales[1], OD.to_canon(np.moveaxis(p.highpasses[1], -1, 0))])
+    outs = proto.run_driver(lines)
+    bad = []
+    for ln, o, e in zip(lines, outs, exp):
+        kind = ln[0]
+        if o == 'raise' or len(o) != len(e) or not all(proto.equal_exact(kind, ee, oo)[0] for ee, oo in zip(e, o)):
+            bad.append(ln[:200])
+    ck.extra['spec_rot_vs_reference'] = {'evaluations': len(lines), 'mismatches': len(bad)}
+    if bad:
+        raise RuntimeError('Lean band-pass reference levels disagree with the numpy dtcwt package (machinery error, not a verdict): ' + bad[0])
+
+
 def run(ck):
     from ..translate import regen_all
     rt.setup_torch()
@@ -195,6 +237,7 @@ def run(ck):
         ck.lean = rt.lean_check(PROP, MODULE, THEOREMS, regen=regen_all)
     st = rt.correspond('impl-model(float)', corr_cases(ck, 80 if q else 800), IMPL)
     ck.corr.append(st)
+    spec_check_rot(ck)
     oracle(ck, False)
     if ((ck.lean is not None and not ck.lean.ok) or st.mismatches) and not ck.failures:
         oracle(ck, True)
